@@ -377,6 +377,35 @@ where
                     );
                 }
             }
+            // a rejected call must leave nothing behind: eval panics (documented) for a variable number
+            // that is out of range, or the caller's argument iterator gives up half-way; the panic is
+            // caught and the same thread evaluates again, passing only the variables that are true
+            if rng.chance(1, 6) {
+                let bad = n + rng.range(0, 3) as u32;
+                let split = rng.range(1, n as usize) as u32;
+                let _ = crate::ctx::catch(|| r.eval((0..n).map(|v| (v, true)).chain([(bad, true)])));
+                let _ = crate::ctx::catch(|| {
+                    r.eval((0..n).map(|v| {
+                        if v == split {
+                            panic!("argument iterator gives up (deliberate, part of the workload)")
+                        }
+                        (v, true)
+                    }))
+                });
+                ctx.count("rejected_eval_calls", 2);
+                for _ in 0..6 {
+                    let a = rng.below(1 << n) as usize;
+                    let got = r.eval((0..n).filter(|v| (a >> v) & 1 == 1).map(|v| (v, true)));
+                    ctx.eval();
+                    if got != want.get(a) {
+                        ctx.violation(
+                            &format!("{k}:eval:wrong-after-rejected-call"),
+                            format!("random n={n} order {order:?}: f={want}: after a panicking eval call on this thread, eval with the true variables of {a:#b} = {got}"),
+                        );
+                        break;
+                    }
+                }
+            }
             // cofactors of the result
             let mc = model_cofactors(K::SEM, &want, &order);
             match (mc, r.cofactors()) {
